@@ -231,7 +231,14 @@ func (inv *Invoice) Invert() error {
 			row.Amount = row.Amount.Invert()
 		}
 	}
-	inv.Totals = nil
+	// A rounding amount supplied with the document is part of the payable
+	// amount, so it is inverted too instead of being dropped with the totals.
+	totals := (*Totals)(nil)
+	if inv.Totals.Rounding != nil {
+		r := inv.Totals.Rounding.Invert()
+		totals = &Totals{Rounding: &r}
+	}
+	inv.Totals = totals
 
 	if err := inv.Calculate(); err != nil {
 		return err
